@@ -485,6 +485,50 @@ def operators(ctx, lk):
             rep.unk('F3', name, str(e))
 
 
+# ---------------------------------------------------------------- F2m the smooth families saturate
+def saturation(ctx, mod):
+    """F2m: "for every input ... a value in [0,1]" includes arguments so far out that an intermediate result overflows or underflows.
+    The straight-line bodies of the smooth families are interpreted over sign / magnitude classes (lib/mag.py); a class of arguments
+    whose result is definitely NaN, infinite, negative or >= 2 is a violation for every argument tuple of the class."""
+    import itertools
+    import mag
+    rep = ctx.rep
+    lk = lambda n: mod.functions.get(n)
+    E7 = (-1074, -600, -20, 0, 20, 600, 1023)
+    E5 = (-1074, -20, 0, 20, 1023)
+    def doms(E):
+        nz = [mag.binade(e, s_) for e in E for s_ in (1, -1)]
+        return dict(any=nz + [mag.Z], nz=nz, pos=[mag.binade(e) for e in E])
+    d7, d5 = doms(E7), doms(E5)
+    SPEC = {'a_mf_gauss': (d7, ('any', 'nz', 'any')), 'a_mf_gbell': (d7, ('any', 'nz', 'pos', 'any')), 'a_mf_sig': (d7, ('any', 'nz', 'any')),
+            'a_mf_psig': (d5, ('any', 'nz', 'any', 'nz', 'any'))}
+    for name, (d, kinds) in SPEC.items():
+        fn = ctx.fn('mf', name)
+        if fn is None:
+            rep.unk('F2m', name, 'anchor vanished')
+            continue
+        loc = fn.loc(fn.entry.instrs[0])
+        if len(fn.params) != len(kinds) or mag.run(fn, [mag.binade(0)] * len(kinds), lk) is None:
+            rep.unk('F2m', name, 'not straight-line arithmetic over its %d arguments' % len(kinds), loc=loc)
+            continue
+        worst, decided, total = [], 0, 0
+        for args in itertools.product(*[d[k] for k in kinds]):
+            r = mag.run(fn, list(args), lk)
+            total += 1
+            if mag.out_of_unit_interval(r):
+                worst.append((args, r))
+            if r != mag.TOP:
+                decided += 1
+        if worst:
+            args, r = worst[0]
+            rep.bad('F2m', name, 'for every %s the result is %s, not a value of [0,1] (%d of %d sign / magnitude classes)' % (
+                ', '.join(mag.show_class(pn[1], v) for pn, v in zip(fn.params, args)), mag.show(r), len(worst), total), loc=loc, key='%s: saturation' % name)
+        else:
+            rep.ok('F2m', name, 'no sign / magnitude class of the arguments yields NaN, an infinity, a negative value or a value >= 2 '
+                   '(%d classes, %d decided; overflow and underflow of intermediate results included)' % (total, decided), loc=loc,
+                   sample={'fn': name, 'classes': total, 'decided': decided})
+
+
 # ---------------------------------------------------------------- F1 dispatch
 def dispatch(ctx):
     rep = ctx.rep
@@ -758,6 +802,7 @@ def run(ctx):
             except Unsupported as e:
                 rep.unk('F2', f + '+' + g, str(e))
     smooth(ctx, lk)
+    saturation(ctx, mf)
     operators(ctx, lookup_in([ctx.module('fuzzy')]))
     dispatch(ctx)
     bfuzz(ctx)
@@ -771,6 +816,7 @@ def run(ctx):
     rep.floor('F2c', 4)
     rep.floor('F2', 10)
     rep.floor('F2s', 5)
+    rep.floor('F2m', 4)
     rep.floor('F3', 9)
     rep.floor('F1', 14 + 1 + 8)
     rep.floor('F4', 4)
